@@ -67,6 +67,10 @@ pub struct Case {
     /// overrides them (C03), and like any other field they are reported as sent
     #[serde(default)]
     pub cl_next_to_chunked: u8,
+    /// the long line of the field list is repeated (up to 12 times) when the list is cycled: heads of 64 KiB and far beyond,
+    /// every line within the line limit
+    #[serde(default)]
+    pub big_head: bool,
 }
 
 pub const CL_NEXT_TO_CHUNKED: &[&[&str]] = &[&["7"], &["3", "5"], &["abc"], &["1, 2"], &["-1"], &["0", "0"], &["18446744073709551616"]];
@@ -112,7 +116,11 @@ impl HeaderSpec {
                 v[0] = 0x80 + rng.below(0x80) as u8;
                 v
             }
-            VKind::Long => (0..(4000 + len as usize % 12_000)).map(|_| visible(&mut rng)).collect(),
+            VKind::Long => {
+                // (with a long name the line still has to fit the 16 KiB line limit)
+                let room = 16384usize.saturating_sub(name_len + 1 + usize::from(!self.tight) + self.pad_left as usize + self.pad_right as usize + 2);
+                (0..(4000 + len % 12_000).min(room)).map(|_| visible(&mut rng)).collect()
+            }
             VKind::Folded => {
                 let frags = 2 + rng.below(3);
                 let mut v = vec![];
@@ -164,6 +172,7 @@ fn name_strategy() -> BoxedStrategy<String> {
         3 => (0..POOL.len()).prop_map(|i| POOL[i].to_string()),
         2 => "[!#$%&'*+.^_`|~0-9A-Za-z-]{1,20}".prop_map(|s| s),
         1 => "[a-z]{1,3}".prop_map(|s| s),
+        1 => "[a-z][a-z0-9-]{100,1000}".prop_map(|s| s),
     ]
     .prop_map(|n| if RESERVED.contains(&n.to_ascii_lowercase().as_str()) { format!("x-{n}") } else { n })
     .boxed()
@@ -244,9 +253,9 @@ identical result for every segmentation. non-trivial = >=2 fields and one of {du
             proptest::collection::vec(seg(), 1..4),
             // special long-line classes
             prop_oneof![8 => Just(0u8), 2 => Just(1u8), 1 => Just(2u8)],
-            (prop_oneof![12 => Just(0u8), 1 => Just(1u8), 1 => Just(2u8), 1 => Just(3u8)], prop_oneof![5 => Just(0u8), 1 => Just(1u8), 1 => Just(2u8)], prop::bool::weighted(0.15), prop::bool::weighted(0.15), prop_oneof![4 => Just(0u8), 1 => 1u8..=CONTENT_TYPE_EDGES.len() as u8], prop_oneof![3 => Just(0u8), 1 => 1u8..=CL_NEXT_TO_CHUNKED.len() as u8]),
+            (prop_oneof![12 => Just(0u8), 1 => Just(1u8), 1 => Just(2u8), 1 => Just(3u8)], prop_oneof![5 => Just(0u8), 1 => Just(1u8), 1 => Just(2u8)], prop::bool::weighted(0.15), prop::bool::weighted(0.15), prop_oneof![4 => Just(0u8), 1 => 1u8..=CONTENT_TYPE_EDGES.len() as u8], prop_oneof![3 => Just(0u8), 1 => 1u8..=CL_NEXT_TO_CHUNKED.len() as u8], prop::bool::weighted(0.5)),
         )
-            .prop_map(|(status, version, reason, max_headers, fill, mut headers, chunked, segs, long, (big_limit, coded, via_redirect, conn_names, ctype_edge, cl_next_to_chunked))| {
+            .prop_map(|(status, version, reason, max_headers, fill, mut headers, chunked, segs, long, (big_limit, coded, via_redirect, conn_names, ctype_edge, cl_next_to_chunked, big_head))| {
                 match long {
                     1 => {
                         if let Some(h) = headers.first_mut() {
@@ -275,6 +284,7 @@ identical result for every segmentation. non-trivial = >=2 fields and one of {du
                     conn_names,
                     ctype_edge,
                     cl_next_to_chunked,
+                    big_head,
                 }
             })
             .boxed()
@@ -293,7 +303,7 @@ identical result for every segmentation. non-trivial = >=2 fields and one of {du
         for i in 0..n_other {
             let mut h = case.headers[i % case.headers.len()].clone();
             if i >= case.headers.len() && matches!(h.kind, VKind::Long | VKind::MaxLine) {
-                h.kind = VKind::Visible;
+                h.kind = if case.big_head && h.kind == VKind::Long && i / case.headers.len() < 12 { VKind::Long } else { VKind::Visible };
             }
             h.seed = h.seed.wrapping_add((i / case.headers.len()) as u32);
             let wv = h.wire_value(h.name.len());
@@ -501,6 +511,8 @@ identical result for every segmentation. non-trivial = >=2 fields and one of {du
         ctx.label_if(obs_text, "obs-text");
         ctx.label_if(folded, "lf-continuation");
         ctx.label_if(head_len > 8192, "head>8KiB");
+        ctx.label_if(head_len > 65536, "head>64KiB");
+        ctx.label_if(fields.iter().any(|(n, _, _)| n.len() > 128), "field-name>128");
         ctx.label_if(multi_seg, "multi-segment");
         ctx.label_if(count == m, "exactly-max-headers");
         ctx.label_if(count == 0, "no-fields");
